@@ -1,12 +1,13 @@
 #!/bin/bash
 # MANIFEST.setup_cmd: warm the Go build cache and build every engine once (offline).
-cd /verif || exit 1
-. /verif/lib.sh
+cd "$(dirname "$0")" || exit 1
+. ./lib.sh
+cd $VERIF || exit 1
 mkdir -p bin evidence replays .ov
 (cd $REPO && go build ./... ) || exit 1
 for eng in kexplore inputx storex; do
   vbuild $eng || exit 1
 done
-. /verif/threx.sh
+. $VERIF/threx.sh
 threx_build || exit 1
 echo "setup ok"
